@@ -1,1 +1,415 @@
-/- C13 — property theorems (stub: not built yet) -/
+import Rivaas.Lemmas.VersionSel
+/-
+C13 — API-version routing follows the configured detection order.
+
+The theorems quantify over every configuration (detection options in any number and order, patterns,
+default, valid list, lifecycles, clock), every route table and every request. Hypotheses:
+`ValidCfg` (what `version.NewConfig` enforces), `ValidReq` (the path begins with `/`, Accept values are
+free of control characters — what `net/http` delivers) and `libAgrees` (the shipped `url.Values`
+results are what standard parsing says; the driver checks it on every case).
+Helper lemmas live in `Lemmas/VersionStr.lean` and `Lemmas/VersionSel.lean`.
+-/
+namespace Rivaas.C13
+open Rivaas Rivaas.Version Rivaas.Version.Spec
+
+/-! ### lifecycle decision -/
+
+theorem lemma_lifecycle (cfg : Cfg) (v : Bytes) :
+    (setLifecycleHeaders cfg v).2 = gone cfg v ∧
+    ((setLifecycleHeaders cfg v).2 = false →
+      ((setLifecycleHeaders cfg v).1.deprecation.isSome = isDeprecated cfg v ∧
+       (setLifecycleHeaders cfg v).1.sunset.isSome = (isDeprecated cfg v && hasSunsetDate cfg v) ∧
+       (isDeprecated cfg v = false →
+          (setLifecycleHeaders cfg v).1.link = none ∧ (setLifecycleHeaders cfg v).1.warning = none))) ∧
+    ((setLifecycleHeaders cfg v).1.xapi = none ∨ (setLifecycleHeaders cfg v).1.xapi = some v) := by
+  unfold setLifecycleHeaders gone isDeprecated hasSunsetDate
+  rw [lemma_getLifecycle_eq]
+  cases lifecycleOf cfg v with
+  | none =>
+    refine ⟨rfl, fun _ => ⟨rfl, rfl, fun _ => ⟨rfl, rfl⟩⟩, ?_⟩
+    simp only
+    split <;> simp
+  | some lc =>
+    obtain ⟨dep, sun, mig⟩ := lc
+    have hx : ∀ (b : Bool), (if (b && v != []) = true then some v else none) = none ∨
+        (if (b && v != []) = true then some v else none) = some v := by
+      intro b; split <;> simp
+    cases sun with
+    | none =>
+      cases dep
+      · exact ⟨rfl, fun _ => ⟨rfl, rfl, fun _ => ⟨rfl, rfl⟩⟩, hx _⟩
+      · exact ⟨rfl, fun _ => ⟨rfl, rfl, fun h => by simp at h⟩, hx _⟩
+    | some d =>
+      obtain ⟨t, http, rfc⟩ := d
+      simp only
+      by_cases hpast : (cfg.enforceSunset && decide (cfg.now > t)) = true
+      · have hpast' : (cfg.enforceSunset && decide (t < cfg.now)) = true := by simpa using hpast
+        rw [if_pos hpast]
+        refine ⟨?_, ?_, hx _⟩
+        · exact hpast'.symm
+        · intro h; simp at h
+      · have hp1 : (cfg.enforceSunset && decide (cfg.now > t)) = false := by simpa using hpast
+        have hp2 : (cfg.enforceSunset && decide (t < cfg.now)) = false := by simpa using hpast
+        rw [if_neg hpast]
+        cases dep
+        · refine ⟨?_, fun _ => ⟨rfl, rfl, fun _ => ⟨rfl, rfl⟩⟩, hx _⟩
+          simp only [Option.map_some]; exact hp2.symm
+        · refine ⟨?_, fun _ => ⟨rfl, rfl, fun h => by simp at h⟩, hx _⟩
+          simp only [Option.map_some]; exact hp2.symm
+
+theorem lemma_notFound (routes : List Route) (req : Req) : isNotFound (notFound routes req) = true := by
+  unfold isNotFound notFound
+  simp only
+  split <;> simp
+
+/-! ### the main theorem -/
+
+/-- **C13.** For every configuration, route table and request, what the model of `ServeHTTP` does
+    satisfies the whole oracle: unversioned routes win and report no version; otherwise the version is the
+    first candidate in the order "custom first, then configuration order" that the valid list accepts,
+    else the default (query and Accept candidates as standard parsing defines them); it is served from
+    that version's tree (the default's when it has none) at the path with the version segment removed;
+    `Version()` reports it; past sunset under enforcement the answer is 410 and no handler runs;
+    deprecation / sunset headers appear exactly for deprecated versions. -/
+theorem serve_meets_spec (cfg : Cfg) (routes : List Route) (req : Req)
+    (hc : ValidCfg cfg) (hr : ValidReq cfg req) (hlib : libAgrees cfg req = true) :
+    specOK cfg routes req (serve cfg routes req) = true := by
+  have hlen : cfg.opts.length = req.lib.length := by
+    unfold libAgrees at hlib
+    simp only [Bool.and_eq_true, beq_iff_eq] at hlib
+    exact hlib.1
+  unfold serve specOK
+  rw [lemma_treeLookup_eq]
+  cases hmain : routed routes none req.method req.path with
+  | some p => simp [noLifecycleHeaders]
+  | none =>
+    simp only
+    rw [List.any_eq_true]
+    refine ⟨_, lemma_routingPath_mem cfg req hr hlen, ?_⟩
+    have hsel := lemma_detectVersion_eq cfg req hc hr hlib
+    have hne := lemma_selected_ne_nil cfg req hc
+    unfold processVersioning
+    simp only [lemma_shouldApply cfg _ req.path hc.dflt_ne, Bool.not_true, Bool.false_eq_true, if_false]
+    unfold outcomeOK
+    simp only [hsel, lemma_selectRoutingTree_eq cfg routes req.method _ hne hc.dflt_ne]
+    cases htree : servingTree cfg routes req.method (selected cfg req) with
+    | none => exact lemma_notFound routes req
+    | some tv =>
+      simp only [lemma_treeLookup_eq]
+      cases hrt : routed routes (some tv) req.method _ with
+      | none => exact lemma_notFound routes req
+      | some p =>
+        simp only
+        obtain ⟨hg, hh, hx⟩ := lemma_lifecycle cfg (selected cfg req)
+        cases hgone : gone cfg (selected cfg req) with
+        | true =>
+          rw [hgone] at hg
+          simp [hg]
+        | false =>
+          rw [hgone] at hg
+          obtain ⟨h1, h2, h3⟩ := hh hg
+          simp only [hg, Bool.false_eq_true, if_false]
+          simp only [h1, h2, Bool.and_eq_true, decide_eq_true_eq, beq_self_eq_true, true_and, and_true,
+            Bool.or_eq_true, beq_iff_eq]
+          refine ⟨?_, ?_⟩
+          · cases hd : isDeprecated cfg (selected cfg req) with
+            | true => simp
+            | false =>
+              obtain ⟨hl, hw⟩ := h3 hd
+              simp [hl, hw]
+          · rcases hx with hx | hx
+            · left; simp [hx]
+            · right; exact hx
+
+
+/-! ### the clauses of the statement, one by one -/
+
+/-- detector order: custom detectors first (each `WithCustomDetection` inserts at the front), then path,
+    header, query and Accept detectors in configuration order -/
+theorem custom_first {α} (opts : List (DetOpt × α)) :
+    buildDetectors opts =
+      ((opts.filter (fun o => isCustom o.1)).reverse ++ opts.filter (fun o => !isCustom o.1)).map
+        fun x => (toDet x.1, x.2) :=
+  lemma_buildDetectors opts
+
+/-- version selection: the first candidate in that order which the valid-versions list accepts, else the
+    default — with query and Accept candidates as *standard parsing* defines them -/
+theorem detect_first_valid (cfg : Cfg) (req : Req) (hc : ValidCfg cfg) (hr : ValidReq cfg req)
+    (hlib : libAgrees cfg req = true) :
+    detectVersion cfg req =
+      (((detectionOrder (cfg.opts.zip req.lib)).filterMap (candidate req)).find? (accepted cfg.valid)).getD
+        cfg.dflt :=
+  lemma_detectVersion_eq cfg req hc hr hlib
+
+/-- what "first accepted candidate, else the default" means, position by position (appendix sketch U) -/
+theorem first_accepted_spec (valid : List Bytes) (dflt : Bytes) (cs : List Bytes) :
+    (∃ (i : Nat) (v : Bytes), cs[i]? = some v ∧ accepted valid v = true ∧ (cs.find? (accepted valid)).getD dflt = v ∧
+        ∀ j : Nat, j < i → ∀ w, cs[j]? = some w → accepted valid w = false) ∨
+    ((∀ (i : Nat) (v : Bytes), cs[i]? = some v → accepted valid v = false) ∧ (cs.find? (accepted valid)).getD dflt = dflt) := by
+  induction cs with
+  | nil => right; simp
+  | cons c rest ih =>
+    by_cases hv : accepted valid c = true
+    · left
+      exact ⟨0, c, by simp, hv, by simp [hv], by intro j hj; omega⟩
+    · have hv' : accepted valid c = false := by simpa using hv
+      rcases ih with ⟨i, u, h1, h2, h3, h4⟩ | ⟨h1, h2⟩
+      · left
+        refine ⟨i + 1, u, by simpa using h1, h2, by simpa [List.find?_cons, hv'] using h3, ?_⟩
+        intro j hj w hw
+        cases j with
+        | zero => simp at hw; subst hw; exact hv'
+        | succ j => exact h4 j (by omega) w (by simpa using hw)
+      · right
+        refine ⟨?_, by simpa [List.find?_cons, hv'] using h2⟩
+        intro i w hw
+        cases i with
+        | zero => simp at hw; subst hw; exact hv'
+        | succ i => exact h1 i w (by simpa using hw)
+
+/-- Accept detection agrees with standard parsing of the header: media ranges split on `,`, parameters
+    cut at `;`, optional white space trimmed, first media type of the shape `prefix version suffix` -/
+theorem accept_scan_eq_std (pattern accept : Bytes) (i : Nat)
+    (hp : index pattern versionPlaceholder = some i) (hs : HeaderSafe accept) :
+    extractFromAccept (acceptParts pattern).1 (acceptParts pattern).2 accept =
+      (mediaTypes accept).findSome?
+        (middle (pattern.take i) (pattern.drop (i + versionPlaceholder.length))) := by
+  rw [lemma_accept_scan_eq_std pattern accept i hp hs]
+  unfold acceptVersion
+  simp only [hp]
+
+/-- `middle` is what its name says: the non-empty `v` with `mt = pfx ++ v ++ sfx` -/
+theorem middle_spec (pfx sfx mt v : Bytes) :
+    middle pfx sfx mt = some v ↔ v ≠ [] ∧ mt = pfx ++ v ++ sfx := by
+  unfold middle
+  constructor
+  · intro h
+    simp only at h
+    split at h
+    · rename_i hc
+      simp only [Option.some.injEq] at h
+      subst h
+      exact ⟨hc.2, hc.1⟩
+    · simp at h
+  · rintro ⟨hv, rfl⟩
+    have : (List.drop pfx.length (pfx ++ v ++ sfx)).take ((pfx ++ v ++ sfx).length - pfx.length - sfx.length) = v := by
+      simp [List.append_assoc]
+    simp only [this]
+    simp [hv]
+
+/-- query detection agrees with standard parsing of the query string (the detector goes through
+    `url.Values`; the shipped result is checked against the Lean parser by `libAgrees`) -/
+theorem query_detect_eq_std (req : Req) (q : Bytes) (has : Bool) (get : Bytes)
+    (h : agreesOne req (.query q, .query has get) = true) :
+    detectOne req.path req.rawQuery (.query q, .query has get) = queryFirst req.rawQuery q :=
+  lemma_detectOne_eq req (.query q) (.query has get) h (fun _ hp => by cases hp) (fun _ hv => by cases hv)
+
+/-- unversioned routes always win and report no version -/
+theorem unversioned_wins (cfg : Cfg) (routes : List Route) (req : Req) (p : Bytes)
+    (h : routed routes none req.method req.path = some p) :
+    (serve cfg routes req).status = 200 ∧ (serve cfg routes req).handler = some (none, p) ∧
+    (serve cfg routes req).version = some [] ∧ noLifecycleHeaders (serve cfg routes req) = true := by
+  unfold serve
+  rw [lemma_treeLookup_eq, h]
+  simp [noLifecycleHeaders]
+
+/-- the handler's `Version()` reports the selected version -/
+theorem version_reported (cfg : Cfg) (routes : List Route) (req : Req)
+    (hc : ValidCfg cfg) (hr : ValidReq cfg req) (hlib : libAgrees cfg req = true)
+    (tv p : Bytes) (h : (serve cfg routes req).handler = some (some tv, p)) :
+    (serve cfg routes req).version = some (selected cfg req) := by
+  have hspec := serve_meets_spec cfg routes req hc hr hlib
+  unfold specOK at hspec
+  cases hm : routed routes none req.method req.path with
+  | some p' =>
+    have := (unversioned_wins cfg routes req p' hm).2.1
+    rw [this] at h
+    simp at h
+  | none =>
+    rw [hm] at hspec
+    simp only [List.any_eq_true] at hspec
+    obtain ⟨rp, _, hok⟩ := hspec
+    unfold outcomeOK at hok
+    simp only at hok
+    split at hok
+    · simp [isNotFound, h] at hok
+    · split at hok
+      · simp [isNotFound, h] at hok
+      · split at hok
+        · simp [h] at hok
+        · simp only [Bool.and_eq_true, beq_iff_eq] at hok
+          exact hok.1.1.1.1.2
+
+/-- a version past its sunset date under enforcement answers 410 without running a handler -/
+theorem sunset_410_no_handler (cfg : Cfg) (routes : List Route) (req : Req)
+    (hc : ValidCfg cfg) (hr : ValidReq cfg req) (hlib : libAgrees cfg req = true)
+    (hmain : routed routes none req.method req.path = none)
+    (hgone : gone cfg (selected cfg req) = true) :
+    (serve cfg routes req).handler = none ∧
+    ((serve cfg routes req).status = 410 ∨ isNotFound (serve cfg routes req) = true) := by
+  have hspec := serve_meets_spec cfg routes req hc hr hlib
+  unfold specOK at hspec
+  rw [hmain] at hspec
+  simp only [List.any_eq_true] at hspec
+  obtain ⟨rp, _, hok⟩ := hspec
+  unfold outcomeOK at hok
+  simp only [hgone, if_true] at hok
+  split at hok
+  · have h1 : (serve cfg routes req).handler.isNone = true := by
+      unfold isNotFound at hok; simp only [Bool.and_eq_true] at hok; exact hok.1
+    exact ⟨by simpa using h1, Or.inr hok⟩
+  · split at hok
+    · have h1 : (serve cfg routes req).handler.isNone = true := by
+        unfold isNotFound at hok; simp only [Bool.and_eq_true] at hok; exact hok.1
+      exact ⟨by simpa using h1, Or.inr hok⟩
+    · simp only [Bool.and_eq_true, decide_eq_true_eq] at hok
+      exact ⟨by simpa using hok.2, Or.inl hok.1⟩
+
+/-- deprecation / sunset headers are emitted exactly for versions configured as deprecated -/
+theorem deprecation_headers_iff (cfg : Cfg) (routes : List Route) (req : Req)
+    (hc : ValidCfg cfg) (hr : ValidReq cfg req) (hlib : libAgrees cfg req = true)
+    (tv p : Bytes) (h : (serve cfg routes req).handler = some (some tv, p)) :
+    ((serve cfg routes req).hDeprecation.isSome = isDeprecated cfg (selected cfg req)) ∧
+    ((serve cfg routes req).hSunset.isSome =
+      (isDeprecated cfg (selected cfg req) && hasSunsetDate cfg (selected cfg req))) ∧
+    (isDeprecated cfg (selected cfg req) = false →
+      (serve cfg routes req).hLink = none ∧ (serve cfg routes req).hWarning = none) := by
+  have hspec := serve_meets_spec cfg routes req hc hr hlib
+  unfold specOK at hspec
+  cases hm : routed routes none req.method req.path with
+  | some p' =>
+    have := (unversioned_wins cfg routes req p' hm).2.1
+    rw [this] at h
+    simp at h
+  | none =>
+    rw [hm] at hspec
+    simp only [List.any_eq_true] at hspec
+    obtain ⟨rp, _, hok⟩ := hspec
+    unfold outcomeOK at hok
+    simp only at hok
+    split at hok
+    · simp [isNotFound, h] at hok
+    · split at hok
+      · simp [isNotFound, h] at hok
+      · split at hok
+        · simp [h] at hok
+        · simp only [Bool.and_eq_true, beq_iff_eq, Bool.or_eq_true] at hok
+          obtain ⟨⟨⟨⟨_, hd⟩, hs⟩, hl⟩, _⟩ := hok
+          refine ⟨hd, hs, ?_⟩
+          intro hnd
+          rcases hl with hl | hl
+          · rw [hnd] at hl; simp at hl
+          · simpa using hl
+
+/-- with one path pattern (the documented configuration) the routing path is the path with prefix and
+    version segment removed when the pattern finds a segment, and the path itself otherwise -/
+theorem path_strip_correct (cfg : Cfg) (path pat : Bytes) (h : pathPatterns cfg = [pat]) :
+    routingPaths cfg path =
+      (match versionSegment pat path with
+       | some (_, rest) => [if rest = [] then ['/'] else rest]
+       | none => [path]) := by
+  unfold routingPaths
+  rw [h]
+  simp only [List.any_cons, List.any_nil, Bool.or_false, List.filterMap_cons, List.filterMap_nil]
+  unfold versionSegment stripBy
+  cases pathPrefix pat with
+  | none => simp
+  | some pfx =>
+    simp only [segmentAfter, stripAfter]
+    cases afterPrefix pfx path with
+    | none => simp
+    | some after =>
+      simp only
+      by_cases hseg : List.takeWhile (fun x => x != '/') after = []
+      · simp [hseg]
+      · have hafter : after ≠ [] := by intro hn; rw [hn] at hseg; exact hseg rfl
+        simp [hseg, hafter]
+
+
+/-! ### the code as shipped: witnesses of K13a–K13d (also replayed on the implementation, corpus/C13) -/
+
+/-- K13a: two earlier keys that merely end in the parameter name exhaust the scanner's two probes -/
+theorem query_scan_asis_witness :
+    extractFromQueryAsIs (s "v") (s "xv=v1&yv=v9&v=v2") = .notFound ∧
+    queryFirst (s "xv=v1&yv=v9&v=v2") (s "v") = some (s "v2") := by decide
+
+/-- K13a: the shipped scanner decoded neither key nor value -/
+theorem query_scan_asis_no_decoding :
+    extractFromQueryAsIs (s "v") (s "%76=v2") = .notFound ∧ queryFirst (s "%76=v2") (s "v") = some (s "v2") ∧
+    extractFromQueryAsIs (s "v") (s "v=v%32") = .found (s "v%32") ∧
+    queryFirst (s "v=v%32") (s "v") = some (s "v2") := by decide
+
+/-- K13b: a media type shorter than prefix+suffix that has both: slice bounds out of range -/
+theorem accept_scan_asis_panics :
+    extractFromAcceptAsIs (s "application/vnd.api+") (s "+json") (s "application/vnd.api+json") = .panic ∧
+    extractFromAccept (s "application/vnd.api+") (s "+json") (s "application/vnd.api+json") = none := by decide
+
+/-- K13d: optional white space before the parameter separator hid the version -/
+theorem accept_scan_asis_ows :
+    extractFromAcceptAsIs (s "application/vnd.api.") (s "+json") (s "application/vnd.api.v2+json ;q=0.9") = .notFound ∧
+    extractFromAccept (s "application/vnd.api.") (s "+json") (s "application/vnd.api.v2+json ;q=0.9") = some (s "v2") := by
+  decide
+
+def cfgSunset : Cfg :=
+  { opts := [.query (s "v")], dflt := s "v1", valid := [], sendVersionHeader := true, sendWarning299 := false,
+    enforceSunset := true, now := 1750000000,
+    lifecycles := [(s "v1", { deprecated := false, sunset := some (1749913600, s "Sat, 14 Jun 2025 15:06:40 GMT", s "2025-06-14T15:06:40Z"), migration := [] })] }
+
+/-- K13c: past its sunset date under enforcement, but not marked deprecated: the shipped code served it -/
+theorem sunset_asis_witness : isSunsetAsIs cfgSunset (s "v1") = false ∧ gone cfgSunset (s "v1") = true ∧
+    (setLifecycleHeaders cfgSunset (s "v1")).2 = true := by decide
+
+/-! ### non-vacuity: the hypotheses of the theorems are met by concrete non-trivial inputs -/
+
+def cfgEx : Cfg :=
+  { opts := [.path (s "/v{version}/"), .header (s "X-API-Version"), .query (s "v"),
+             .accept (s "application/vnd.api.v{version}+json"), .custom 0],
+    dflt := s "v1", valid := [s "v1", s "v2"], sendVersionHeader := true, sendWarning299 := true,
+    enforceSunset := true, now := 1750000000,
+    lifecycles := [(s "v2", { deprecated := true, sunset := some (1760000000, s "H", s "R"), migration := s "https://m" })] }
+
+def routesEx : List Route :=
+  [{ ver := some (s "v1"), method := s "GET", path := s "/users" },
+   { ver := some (s "v2"), method := s "GET", path := s "/users" },
+   { ver := none, method := s "GET", path := s "/health" }]
+
+/-- path says v9 (invalid), header says v3 (invalid), query says v2 (valid): v2 wins, `/v9/users` is stripped -/
+def reqEx : Req :=
+  { method := s "GET", path := s "/v9/users", rawQuery := s "xv=v1&v=v2",
+    lib := [.none, .header (s "v3"), .query true (s "v2"), .accept (s "application/vnd.api.v1+json ;q=0.9"), .custom []] }
+
+theorem cfgEx_valid : ValidCfg cfgEx := by
+  refine ⟨by decide, ?_⟩
+  intro p hp
+  simp [cfgEx] at hp
+  subst hp
+  exact ⟨21, by decide⟩
+
+theorem reqEx_valid : ValidReq cfgEx reqEx := by
+  refine ⟨by decide, ?_⟩
+  intro v hv
+  simp [reqEx] at hv
+  subst hv
+  intro c hc
+  revert c
+  decide
+
+example : libAgrees cfgEx reqEx = true := by decide
+
+/-- the example exercises precedence, rejection by the valid list, stripping and deprecation headers -/
+example : (serve cfgEx routesEx reqEx).handler = some (some (s "v2"), s "/users") ∧
+    (serve cfgEx routesEx reqEx).version = some (s "v2") ∧
+    (serve cfgEx routesEx reqEx).hDeprecation = some (s "true") ∧
+    selected cfgEx reqEx = s "v2" := by decide
+
+example : specOK cfgEx routesEx reqEx (serve cfgEx routesEx reqEx) = true :=
+  serve_meets_spec cfgEx routesEx reqEx cfgEx_valid reqEx_valid (by decide)
+
+/-- `sunset_410_no_handler` is not vacuous -/
+example : routed ([{ ver := some (s "v1"), method := s "GET", path := s "/users" }] : List Route) none (s "GET") (s "/users") = none ∧
+    gone cfgSunset (s "v1") = true := by decide
+
+/-- `unversioned_wins` is not vacuous -/
+example : routed routesEx none (s "GET") (s "/health") = some (s "/health") := by decide
+
+end Rivaas.C13
